@@ -89,6 +89,38 @@ def climatePreset (v : Ver) (preset : Int) (away : Bool) : List (String × Val) 
 /-- `execute_service`: integer arguments go to `int_` from 1.3 on, to `legacy_int` before -/
 def serviceIntField (v : Ver) : String := if v.ge ⟨1, 3⟩ then "int_" else "legacy_int"
 
+/-- `UserServiceArgType`; `other` = a number the model enum does not know (converted to `None`) -/
+inductive ArgTy | bool | int | float | string | boolArr | intArr | floatArr | stringArr | other
+deriving DecidableEq, Repr
+
+/-- the `ExecuteServiceArgument` field an argument of this type is written to (`USER_SERVICE_MAP_*`
+and the version rule for integers); `none` = the assertion fails -/
+def serviceField (v : Ver) : ArgTy → Option String
+  | .bool => some "bool_"
+  | .int => some (serviceIntField v)
+  | .float => some "float_"
+  | .string => some "string_"
+  | .boolArr => some "bool_array"
+  | .intArr => some "int_array"
+  | .floatArr => some "float_array"
+  | .stringArr => some "string_array"
+  | .other => none
+
+structure SvcArg where
+  name : String
+  ty : ArgTy
+deriving DecidableEq, Repr
+
+/-- `execute_service`: one `ExecuteServiceArgument` per declared argument, in declaration order, each
+carrying `data[name]` in the field of its type; `none` = the call raises (missing key / unknown type).
+`α` is the type of supplied values — the method copies them. -/
+def executeService {α : Type} (v : Ver) (data : String → Option α) : List SvcArg → Option (List (String × α))
+  | [] => some []
+  | a :: rest =>
+    match data a.name, serviceField v a.ty, executeService v data rest with
+    | some x, some f, some r => some ((f, x) :: r)
+    | _, _, _ => none
+
 /-! ## the schemas (transcribed from `client.py`; `lock_command` has NO flag for `code`, as in the code) -/
 
 def hasOpt (arg : String) (tr : Tr := .id) : Opt := { arg := arg, flag := some ("has_" ++ arg), fields := [arg], tr := tr }
